@@ -80,6 +80,24 @@ CLAIMS = {
               "per-file runs). Suggestions are not compared (the CLI's JSON does not print them)."),
         technique="Lean 4 proof (list lemmas over a parametric orchestrator model, decide over regenerated tables) + differential runs",
         ref="DESIGN.md §3 C10"),
+    "C05": dict(
+        text=("Kernel-checked theorems about a model of configuration plumbing, for every set of carriers, documents, key spellings, "
+              "command-line options and languages: the configuration in effect is the deciding carrier's document (--config, .thailint.yaml, "
+              ".thailint.json, pyproject.toml) and the run exits 2 exactly when a consulted file is unparsable or --config is missing "
+              "(load_meets_spec, exit2_iff_broken), every carrier gives the same configuration (carrier_independent), hyphen and underscore "
+              "spellings are interchangeable (spelling_independent, section_found_either_spelling), a command-line threshold beats the file "
+              "including every per-language override (cli_wins), overrides apply option by option (override_order), non-positive limits and "
+              "unparsable files exit 2 (invalid_limit_exit2, unparsable_exit2), the ignore list counts from every carrier, and the three "
+              "threshold shapes are monotone as sub-lists (upper/lower_limit_monotone, allow_list_monotone). Thirteen genuine defects repaired, "
+              "one recorded (lazy-ignores never reads its section). Tied to /repo by running the real CLI for all 17 documented sections: "
+              "result equal to the library run with the section the model resolves (per language), plus absolute checks per linter: "
+              "enabled:false through 5 carriers x 2 spellings, threshold sweeps effective, monotone and carrier-independent, command-line "
+              "option vs file, invalid values and unparsable files exit 2, top-level ignore through every carrier."),
+        note=("YAML/JSON/TOML parsers are trusted; how each linter uses its resolved options is covered by the reference run and the absolute "
+              "checks on designed trigger files, not by theorems (the per-linter decision logic is the subject of C01/C16/C17/C18); monotonicity "
+              "for dry is compared per file by count because window positions move with the window size."),
+        technique="Lean 4 proof (exhaustive case analysis over carriers, induction over option lists) + differential check against the library API + absolute per-linter checks",
+        ref="DESIGN.md §3 C05"),
     "C06": dict(
         text=("Kernel-checked theorems about the renderers and the exit status, for every list of violations: exit 0/1/2 iff "
               "none / some / run-not-performed; the JSON document parses back to exactly the violations and total = their number; "
